@@ -37,7 +37,14 @@ Xs == <<
   <<"if", Bin("eq", Get(CV, "n"), Lit(L(2))), OverflowE, Lit(TrueV)>>,
   <<"like", Get(CV, "s"), <<97, Star>>>>,
   <<"not", Get(CV, "n")>>,
-  Bin("eq", Get(CV, "n"), Get(Lit(Ua), "n"))
+  Bin("eq", Get(CV, "n"), Get(Lit(Ua), "n")),
+  \* a record literal whose OTHER field is an attribute access on unknown data (may error once substituted)
+  Bin("eq", Get(RecE([a |-> Lit(L(1)), b |-> Get(Get(CV, "n"), "x")], <<"a", "b">>), "a"), Lit(L(1))),
+  <<"has", RecE([b |-> Get(Get(CV, "n"), "x")], <<"b">>), "b">>,
+  Bin("eq", Get(RecE([a |-> Lit(L(1)), b |-> Get(PV, "n")], <<"a", "b">>), "a"), Lit(L(1))),
+  <<"has", RecE([a |-> Get(Get(Lit(Ua), "n"), "x")], <<"a">>), "zz">>,
+  Bin("eq", Get(Get(CV, "n"), "x"), Lit(L(1))),
+  <<"has", Get(CV, "n"), "x">>
 >>
 AllAtoms == {Known[i] : i \in 1..Len(Known)} \cup {Xs[i] : i \in 1..Len(Xs)}
 XSet == {Xs[i] : i \in 1..Len(Xs)}
@@ -48,8 +55,8 @@ CtxWith(nv) == <<"rec", [Req.context[2] EXCEPT !.n = nv]>>
 StoreWith(anv) == [Store EXCEPT ![Ua] = [@ EXCEPT !.attrs = [@ EXCEPT !.n = anv]]]
 PrincDom == {Ua, Ub, Uz, Gg}
 ResDom == {Dd, Gg}
-CnDom == {L(2), MaxL, StrA, <<"bool", TRUE>>, <<"bool", FALSE>>}
-AnDom == {L(1), L(0), StrA}
+CnDom == {L(2), MaxL, StrA, <<"bool", TRUE>>, <<"bool", FALSE>>, <<"rec", [x |-> L(1)]>>, <<"rec", <<>>>>}
+AnDom == {L(1), L(0), StrA, <<"rec", [x |-> L(1)]>>}
 
 \* mode: [p: "known"|"untyped"|"typed", r: BOOLEAN (unknown?), cn: BOOLEAN, an: BOOLEAN]
 Modes == <<
